@@ -18,6 +18,12 @@ def run():
     for cfg in ("SemImpl_dev_loop.cfg", "SemImpl_dev_timed.cfg", "SemImpl_dev_blind.cfg"):
         rr = vlib.model_check("SemImplMC", cfg, expect_ok=False, timeout=600)
         chk.add_model("SemImpl/variant %s (must violate)" % cfg[12:-4], rr, note="violated: %s" % rr["violated"])
+    chk.add_model("SlidingSemImpl (wait / signal with max, notify loop; signals arriving in decreasing order)",
+                  vlib.model_check("SlidingSemImplMC", "SlidingSemImpl.cfg", timeout=600))
+    for cfg in ("SlidingSemImpl_dev.cfg", "SlidingSemImpl_dev_cons.cfg"):
+        rs = vlib.model_check("SlidingSemImplMC", cfg, expect_ok=False, timeout=600)
+        chk.add_model("SlidingSemImpl/variant signal_overwrites, %s (must violate)" % cfg[:-4], rs,
+                      note="violated: %s" % rs["violated"])
     r = vlib.model_check("SemAbsMC", "SemAbsMC_dev.cfg", expect_ok=False, timeout=600)
     chk.add_model("SemAbsMC/deviation TimedAcquireFalseAfterSignal (must violate)", r,
                   note="violated: %s" % r["violated"])
